@@ -177,6 +177,32 @@ def run(ck, ctx):
             inc_ok = e[0] == "call" and (e[1] or "").endswith("<impl u64>::wrapping_add") and interval(e[2][1]) == (1, 1) and not any(b.dominates(tb, bi) for tb, _ in arms.values())
     ck.ob("C08.2", "instruction-counter", writers == {simx.STEP} and inc_ok,
           "instructions_run is written only in _step_inner (%s), +1 after the match (not inside an arm)" % sorted(writers), "src/sim.rs")
+    # must-pass-through: once the instruction match is entered, the only ways to leave the function without the increment
+    # are error returns (an Err aggregate or the residual of `?`); a success value that bypasses the counter (an early
+    # `return self.handle_interrupt(..)` in an arm) makes run_with_limit count fewer instructions than single steps execute
+    inc_blocks = [bi for bi, si, s in b.stmts() if s["k"] == "assign" and any(isinstance(e, dict) and e.get("name") == "instructions_run" for e in s["p"]["proj"])]
+    bypass = []
+    if len(inc_blocks) == 1 and swb is not None:
+        seen, st_ = set(), [tb for tb, _ in arms.values()]
+        while st_:
+            x = st_.pop()
+            if x in seen or x == inc_blocks[0]:
+                continue
+            seen.add(x)
+            st_.extend(b.succs(x))
+        for bi in sorted(seen):
+            for s in b.blocks[bi]["stmts"]:
+                if s["k"] == "assign" and s["p"]["l"] == 0 and not s["p"]["proj"]:
+                    rv = s["rv"]
+                    if not (rv["k"] == "agg" and rv.get("variant") == "Err"):
+                        bypass.append("line %s: return value %s" % (s.get("line"), rv.get("variant") or rv["k"]))
+            t = b.blocks[bi]["term"]
+            if t["k"] == "call" and t.get("dest") and t["dest"]["l"] == 0 and not t["dest"]["proj"]:
+                c = (t["func"].get("resolved") or {}).get("path") or t["func"].get("fn") or ""
+                if not c.endswith("from_residual"):
+                    bypass.append("line %s: returns the result of %s" % (t.get("line"), c.split("::")[-1]))
+    ck.ob("C08.2", "counter-on-every-success-path", len(inc_blocks) == 1 and not bypass,
+          "after the instruction match, every path that leaves _step_inner without the +1 is an error return%s" % ("; bypassing: " + "; ".join(bypass) if bypass else ""), "src/sim.rs")
 
     # ---- C08.3 exception vectoring
     st = F.bodies.get("sim::Simulator::step")
